@@ -212,6 +212,19 @@ def run_case(case, seed):
                 if ok:
                     fails.append(fail("wrong_shape_contract_accepted", f"real_contract(R{R.shape}, {mm}, {nn}) returned", **tags))
             # scalar form of Realp for every unit
+        if emb == "Realp":
+            # component planes of mixed dtype (integer / single-precision real plane, float64 imaginary planes, and vice versa)
+            A = fill.quat_int(m, n, -5, 5).astype(float) + np.array([0.0, 0.5, 0.25, 0.75])
+            A[..., 0] = np.round(A[..., 0])
+            c0, c1, c2, c3 = comps(A)
+            for nm, planes in (("int_real_plane", (c0.astype(np.int64), c1, c2, c3)), ("f32_real_plane", (c0.astype(np.float32), c1, c2, c3)),
+                               ("int_k_plane", (c0 + 0.5, c1, c2, np.round(c3).astype(np.int64)))):
+                Aexp = np.stack([np.asarray(pl, float) for pl in planes], axis=-1)
+                ok, F = call(u.Realp, *planes)
+                evals += 1
+                nontriv += 1
+                if not ok or not np.array_equal(np.asarray(F, float), O.real_blocked(Aexp)):
+                    fails.append(fail("layout", f"Realp with {nm}: embedding differs from the left-regular representation (dtype handling)", cls=nm, **tags))
         if emb == "Realp" and (m, n) == (1, 1):
             for q in list(G.SIGNED_UNITS) + [np.array([3, -2, 5, 7])]:
                 ok, F = call(u.Realp, float(q[0]), float(q[1]), float(q[2]), float(q[3]))
